@@ -12,6 +12,11 @@ from .. import core, golden
 from .. import families as F
 
 
+def _iclose():
+    from .c02 import iterclose_programs
+    return iterclose_programs()
+
+
 def family_list(tier):
     t = tier == "thorough"
     fams = [
@@ -25,6 +30,7 @@ def family_list(tier):
         ("pair", F.pair_family(tier)),
         ("completion", F.completion_family(tier)),
         ("capt", F.capt_family(tier)),
+        ("iclose", _iclose()),
     ]
     import os
     only = os.environ.get("VERIF_FAMILIES")
@@ -38,7 +44,7 @@ def entry_subset(name, progs, tier):
     stable when a family is edited)."""
     q = tier == "quick"
     k = {"ctlgen": 3 if q else 1, "gen": 3 if q else 1, "destr": 3 if q else 1, "ctl": 7 if q else 16,
-         "pair": 7 if q else 2, "completion": 5 if q else 2, "scope": 7 if q else 2, "class": 7 if q else 2, "op": 23 if q else 5, "capt": 5 if q else 2}[name]
+         "pair": 7 if q else 2, "completion": 5 if q else 2, "scope": 7 if q else 2, "class": 7 if q else 2, "op": 23 if q else 5, "capt": 5 if q else 2, "iclose": 3 if q else 1}[name]
     if name == "ctl" and not q:
         return [p for p in progs if int(core.sha12(p), 16) % 48 < 3]
     return [p for p in progs if int(core.sha12(p), 16) % (k * 6) < 6] if k > 1 else list(progs)
